@@ -84,13 +84,12 @@ Gfa1ToEdge(x, lf, lt) == IF x.t = "L" THEN LinkToEdge(x, lf, lt) ELSE Containmen
 Gfa1ToEdgeSet(x, lf, lt) == IF x.t = "L" THEN {LinkToEdge(x, lf, lt)} ELSE ContainmentToEdgeSet(x, lf, lt)
 
 \* the four ways of writing one edge
-EForms(g) ==
-  { g,
-    Geo(g.s2, g.o2, g.s1, g.o1, <<g.n[5], g.n[6], g.n[7], g.n[8], g.n[1], g.n[2], g.n[3], g.n[4]>>,
-        SwapID(g.al), g.star),
-    Geo(g.s1, Inv(g.o1), g.s2, Inv(g.o2), g.n, Reverse(g.al), g.star),
-    Geo(g.s2, Inv(g.o2), g.s1, Inv(g.o1), <<g.n[5], g.n[6], g.n[7], g.n[8], g.n[1], g.n[2], g.n[3], g.n[4]>>,
-        Complement(g.al), g.star) }
+SwapN(n) == <<n[5], n[6], n[7], n[8], n[1], n[2], n[3], n[4]>>
+F1(g) == g
+F2(g) == Geo(g.s2, g.o2, g.s1, g.o1, SwapN(g.n), SwapID(g.al), g.star)              \* sides exchanged
+F3(g) == Geo(g.s1, Inv(g.o1), g.s2, Inv(g.o2), g.n, Reverse(g.al), g.star)         \* read on the other strand
+F4(g) == Geo(g.s2, Inv(g.o2), g.s1, Inv(g.o1), SwapN(g.n), Complement(g.al), g.star) \* both
+EForms(g) == {F1(g), F2(g), F3(g), F4(g)}
 EquivE(g, h) == h \in EForms(g)
 
 \* validity of an E line in GFA2 given the segment lengths
